@@ -172,6 +172,46 @@ def source_table():
     vals = [int(x, 16) for x in re.findall(r"0x([0-9a-fA-F]{2})", m.group(1))]
     return sum(v << (8 * k) for k, v in enumerate(vals)) if len(vals) == 128 else None
 
+def source_root_table(name, count):
+    """RSQRT_TAB / RCBRT_TAB of base/src/ring/root.rs packed little-endian (ties the tables the mirrored primitive
+    roots use to the source text on every run)"""
+    import re, os
+    from vlib import core
+    src = open(os.path.join(core.REPO, "base/src/ring/root.rs")).read()
+    m = re.search(r"const %s: \[u8; %d\] = \[(.*?)\];" % (name, count), src, re.S)
+    if not m:
+        return None
+    vals = [int(x, 16) for x in re.findall(r"0x([0-9a-fA-F]{2})", m.group(1))]
+    return sum(v << (8 * k) for k, v in enumerate(vals)) if len(vals) == count else None
+
+def qtop_radicand(rng, n, depth=0):
+    """radicand of 2n words whose high 2(n - n/2) words are t^2 + 2t = (t+1)^2 - 1 with a normalised t: the recursive
+    call of root::sqrt_rem then returns r1 = 2*s1 (r1_top set), the division by s1 overflows (carry) and q_top = true
+    (q = B): the rarest arm of the Karatsuba square root (q^2 not computed, q_top placed at word 2*split for odd n /
+    charged to c for even n, always followed by the c < 0 repair with add_word_in_place(b[split..], 1)).  n = 2 is
+    sqrt_rem_42's `q >> WORD_BITS > 0` arm.  depth > 0 nests the pattern in the high part as well."""
+    split = n // 2
+    h = n - split
+    if n == 2:
+        split, h = 1, 1
+    if depth > 0 and h >= 2:
+        t = isqrt_py(qtop_radicand(rng, h, depth - 1))
+        t |= 1 << (64 * h - 1)
+    else:
+        t = rng.getrandbits(64 * h) | (1 << (64 * h - 1))
+        if rng.random() < 0.2:
+            t = (1 << (64 * h)) - 1 - rng.choice([0, 1, 2])
+        elif rng.random() < 0.2:
+            t = 1 << (64 * h - 1)
+    hi = t * t + 2 * t
+    lowbits = 128 * split
+    low = rng.choice([0, (1 << lowbits) - 1, rng.getrandbits(lowbits), rng.getrandbits(lowbits) >> rng.randrange(0, lowbits)])
+    return (hi << lowbits) | low
+
+def isqrt_py(x):
+    import math
+    return math.isqrt(x)
+
 def echo_cases(inner, nostd):
     """log2_bounds promises an enclosure, not bit patterns: run the harness over `inner` = [(op, args)] first and
     wrap each answer into an echo case `lb <answer> <op> <args…>` (registered std build) or `ns …` (harness built
@@ -237,6 +277,9 @@ def generate(rng, tier):
     q = tier == "quick"
     t = source_table()
     yield Case("tab.log2", [hx(t) if t is not None else "0"], nontrivial=False)
+    for op, name, cnt in (("tab.rsqrt", "RSQRT_TAB", 96), ("tab.rcbrt", "RCBRT_TAB", 56)):
+        t = source_root_table(name, cnt)
+        yield Case(op, [hx(t) if t is not None else "0"], nontrivial=False)
     # ---- gcd / gcd_ext
     for i in range(700 if q else 14000):
         a, b = gcd_pair(rng, tier)
@@ -292,6 +335,28 @@ def generate(rng, tier):
     for i in range(40 if q else 800):
         bits = rng.choice([129, 129, 130])
         yield Case("u.sqrtrem", [hx((1 << (bits - 1)) | rng.getrandbits(bits - 1))])
+    # Karatsuba square root, q_top arm (see qtop_radicand): every output length 2..12, 16, 17, 33 (even and odd n, the
+    # `split == 1` product and sqr::sqr), plain / nested one level / cut to an odd word count or an even bit shift
+    # (sqrt_rem_large's normalisation restores the pattern), and the same shape for the u128 primitive (hi u64 = t^2+2t)
+    for i in range(120 if q else 2400):
+        n = rng.choice([2, 2, 3, 3, 4, 5, 6, 7, 8, 9, 10, 11, 12, 16, 17, 33])
+        x = qtop_radicand(rng, n, depth=rng.choice([0, 0, 1]))
+        cut = rng.choice([0, 0, 0, 2, 62, 64, 126])
+        x >>= cut
+        yield Case(rng.choice(["u.sqrtrem", "u.sqrtrem", "u.sqrt", "i.sqrt"]), [hx(x)])
+        if rng.random() < 0.3:
+            yield Case("u.nthroot", [hx(x), dec(2)])
+    for i in range(60 if q else 1200):
+        t = rng.getrandbits(32) | (1 << 31)
+        if rng.random() < 0.2:
+            t = (1 << 32) - 1 - rng.choice([0, 1])
+        hi = t * t + 2 * t
+        x = (hi << 64) | rng.choice([0, (1 << 64) - 1, rng.getrandbits(64), rng.getrandbits(33)])
+        x >>= rng.choice([0, 0, 2, 4, 30])
+        yield Case("u.sqrtrem", [hx(x)])
+        yield Case("p.sqrtrem", ["u128", hx(x)])
+        lo = max(0, min(x - 8, (1 << 127) - 1 - 64))
+        yield Case("p.sqrtrange", ["u128", dec(lo), dec(lo + 16)])
     # guard cases for the O(n^2) Newton descent fixed in /repo 440594f (degree large, bit length ~1.6 n):
     # with the old start value 2^floor(bits/n) these need ~0.4 n^2 steps (n = 1000: > 10 min) and show up as `hang`
     for n in ([100, 500, 1000] if q else [100, 300, 500, 1000, 1500, 2000]):
@@ -437,12 +502,17 @@ REFINED = ["gcd_ops.rs dispatch (gcd / gcd_ext over inline/heap operands) and IB
            "base ring/gcd.rs unchecked_gcd_ext (Euclid with cofactors)", "base ring/gcd.rs Gcd::gcd + unchecked_gcd (binary gcd with the one-division shortcut; (a|b).trailing_zeros() = min proved)",
            "base ring/gcd.rs two-width unchecked_gcd_ext of u128 (full-width Euclid, half-width loop, recombined cofactors)", "lehmer_guess / lehmer_step cofactor matrix (determinant 1 => gcd preserved; committed cofactors never make a step negative; every iteration decreases x+y)",
            "nth_root Newton iteration (up then down) and its stopping rule", "sqrt_rem_large normalisation / de-normalisation of root and remainder",
+           "integer/src/root.rs sqrt_rem (Zimmermann's Karatsuba square root): the recursion mirrored statement by statement on slice values with every carry (r1_top + sub_in_place, div_rem_in_place by s1, the shifted-in quotient bit r1_top ^ carry, q_top, the parity repair, q^2 with q_top placed at word 2*split or charged to c, sub_in_place, the c < 0 repair with add_word_in_place / add_mul_word_in_place / sub_one_in_place) — executed by the driver, proved for every n >= 2 and every normalised 2n-word value: s^2 + r = a, r <= 2s, r = r_lo + carry*2^(W n) (sqrt_rem_karatsuba_correct; arithmetic core zimmermann_step); div_rem_in_place and sqr enter at their value (C02, C01)",
+           "integer/src/root.rs sqrt_rem_42 (word-assembled r0 = (r1*B + b1)/2, q >= B reduction, u << 1 | (a[1] & 1), overflowing_sub / overflowing_add carries): mirrored, executed, proved on every normalised 4-word value for every word size >= 2 (sqrt_rem_42_correct)",
+           "sqrt_rem_large over the mirrored kernel = sqrt_rem_large over the specification on every operand above two words (sqrt_rem_kernel_eq_spec, sqrt_rem_mirrored_spec, nth_root_mirrored_eq)",
+           "base ring/root.rs fix_sqrt_error! / fix_cbrt_error! (the correction loops every table/Newton routine ends in): sound for every width and every start value (fix_sqrt_error_sound, fix_cbrt_error_sound)",
+           "base ring/root.rs normalized_sqrt_rem / normalized_cbrt_rem of u16, u32, u64 (RSQRT_TAB / RCBRT_TAB lookup, Newton steps in wrapping/checked u16/u32 arithmetic, saturating_mul), u128 normalized_sqrt_rem (Karatsuba step over the u64 routine, operands bit-packed with KBITS = 32, q >= B reduction, wrapping_sub / overflowing_add carries) and the sqrt_rem / cbrt_rem / sqrt / cbrt wrappers (even / multiple-of-3 normalising shift, de-normalisation, remainder recomputation) of u8..u128: mirrored with checked arithmetic, executed by the driver; SOUND on every value of the type — whatever is returned without arithmetic overflow is the floor root and the remainder (prim_sqrt_rem_sound, prim_cbrt_rem_sound); u8 and u16 also TOTAL and exact on every value by kernel evaluation (prim_root_u8_total, prim_root_u16_total); tables compared with the source text on every run (tab.rsqrt, tab.rcbrt)",
            "log_dword / log_word_base / log_large correction loops for any admissible first guess", "UBig::remove (squaring tower up, then down)",
            "IBig::nth_root / sqrt / cbrt sign rules and panics",
            "no_std table estimator log2_fp8 / ceil_log2_fp8 over all u16, the u8 powering cases and the top-16-bit + shift lifting to wider integers (integer-level enclosure theorems by kernel evaluation)"]
 FRONTIER = ["gcd_ext_in_place buffer-length claims (t0, t1 fit lhs_len+1 words; |b| fits lhs_len words — the debug_assert_zero on the carries): values are modelled unbounded; a dropped carry would falsify the Bezout check the harness performs on every call. Missing invariant: |t0| <= |t1| <= lhs/y under the x > y normalisation (needs the guessed quotients to be the true quotients, i.e. completeness of Collins' condition, not only non-negativity)",
-            "root::sqrt_rem (Zimmermann Karatsuba square root) and sqrt_rem_42: specified by the floor square root",
-            "base ring/root.rs normalized_sqrt_rem / normalized_cbrt_rem (table + Newton): specified by the floor root, compared exhaustively for u8/u16 and on dense runs around every perfect square/cube boundary class of u32/u64/u128",
+            "base ring/root.rs u32 / u64 Newton estimate stages and the u128 sqrt step: TOTALITY (no arithmetic overflow, i.e. the estimate is an under-estimate that fits) is not proved above u16 — the routines are mirrored and executed with checked arithmetic (an overflow would print as `panic ArithmeticOverflow` and disagree with the real code), and their answers are proved to be the floor root whenever they answer (prim_sqrt_rem_sound incl. u128, prim_cbrt_rem_sound up to u64). `sqrt_rem_driver_spec` states sqrt_rem exactly as the driver runs it for the 64-bit word with this totality of the u64 / u128 routines as its ONLY hypothesis",
+            "base ring/root.rs u128 normalized_cbrt_rem (B = 2^22 cube-root step over the u64 routine + `while r < 0` descent): mirrored and executed (Tie B compares the real code with the mirrored algorithm on boundary / dense-run classes), no theorem; the floor-root relation is evaluated beside every result",
             "f32 log2 first guesses of ilog: a parameter with the hypothesis the code asserts (base^est <= x)",
             "log2_bounds (std build, libm log2f): no theorem; the harness echoes the implementation's own bounds and the driver decides lb <= log2(x) <= ub exactly (certified interval squaring / exact powering) on every call — bit patterns are NOT compared, so a different valid estimator is accepted",
             "f32 arithmetic of the estimators (x/256, + shift, next_up/next_down, *(1 +- 2^-22)): covered by the per-call enclosure check only"]
@@ -450,26 +520,32 @@ RULE = ("gcd pairs from {0/0, one zero, equal, common factor x cofactor size cla
         "quotient > 2^63, Fibonacci pairs (all quotients 1) up to 19300 bits, powers of two / long zero tails, near-equal top words, random "
         "0..320 words; around Lehmer's double-word-guess threshold: 298..302/320/400 words x length gap 0..4 words x 0/1/many leading zero "
         "bits of the top word, as g*u, g*v with known g, near-equal and word-shifted pairs} x {UBig, IBig, mixed} x {gcd, gcd_ext}; radicands {0,1,perfect powers, perfect powers +-1, every (word count, "
-        "leading-zero count) class of sqrt_rem_large incl. shift = 64 and > 64} x n in {0..10, 16, 63..65, 127..129, 1000, bit length +-1}; "
+        "leading-zero count) class of sqrt_rem_large incl. shift = 64 and > 64; Karatsuba q_top class: high 2(n - n/2) words = t^2 + 2t with normalised t "
+        "(r1 = 2*s1, r1_top and quotient carry both set, q = B) for n in 2..12, 16, 17, 33, plain / nested / cut to odd word counts and even bit shifts; the same shape "
+        "(hi u64 = t^2 + 2t) for the u128 primitive} x n in {0..10, 16, 63..65, 127..129, 1000, bit length +-1}; "
         "ilog over bases {2, 2^k, 10, word, dword, multi-word} x {0, 1, base^e, base^e +-1, random}; remove with known multiplicity; "
         "log2_bounds of UBig/IBig/FBig<2>/DBig/RBig/Relaxed/u8..u128 incl. values next to 1 and exact powers of two, f32/f64 by bit pattern "
         "(specials, subnormals, sampled/all exponents x boundary mantissas); the same through a harness built WITHOUT the std feature "
         "(table estimator: all u8, u16 blocks, u32..u128 with top-16-bit boundary patterns, UBig, f32/f64); primitives: "
-        "exhaustive u8 (sqrt, cbrt, log2 bounds, gcd rows) and u16 (all in thorough, sampled blocks in quick), boundary + random above. "
+        "exhaustive u8 (sqrt, cbrt, log2 bounds, gcd rows) and u16 (all in thorough, sampled blocks in quick), boundary + random above; RSQRT_TAB / RCBRT_TAB / LOG2_TAB read from the source text. "
         "Non-trivial := an operand above two words or a primitive sweep; distinct := distinct (op,args) lines.")
 EXPLANATION = ("Lean theorems: gcd dispatch = Nat.gcd with the GcdZeroZero panic; Bezout identity of gcd_ext through word/dword recovery and the "
                "multi-word post-processing (exact division); the mirrored Lehmer loops gcd_in_place and gcd_ext_in_place always return and are "
                "correct (no assumed kernel in gcd or gcd_ext): cofactor matrix has determinant 1, committed steps never go negative, x+y decreases, "
-               "coefficients satisfy x = -+t0*rhs, y = +-t1*rhs (mod lhs); Newton nth_root ends at the floor root; sqrt_rem_large de-normalisation is "
-               "exact; ilog correction loops end at floor(log) for any admissible first guess; remove returns the exact multiplicity. "
+               "coefficients satisfy x = -+t0*rhs, y = +-t1*rhs (mod lhs); Newton nth_root ends at the floor root; Zimmermann's Karatsuba square root "
+               "(sqrt_rem, sqrt_rem_42) mirrored with all carries returns root, remainder and remainder carry on every normalised input, so sqrt_rem_large over it "
+               "equals sqrt_rem_large over the floor square root; sqrt_rem_large de-normalisation is exact; the primitive table/Newton roots are sound (fix loops) and, for u8/u16, total; "
+               "ilog correction loops end at floor(log) for any admissible first guess; remove returns the exact multiplicity. "
                "log2_bounds enclosure is decided exactly per call by certified interval squaring / exact powering in the driver.")
-ASSUMPTIONS = ["mul/div/pow of UBig used inside nth_root, ilog and remove are exact (C01, C02)",
-               "Zimmermann square root and the primitive table/Newton roots meet their contracts (correspondence-checked, not proved)"]
+ASSUMPTIONS = ["mul/div/pow of UBig used inside nth_root, ilog and remove, and div_rem_in_place / sqr inside root::sqrt_rem, are exact (C01, C02)",
+               "the u32/u64 Newton estimates and the u128 sqrt step of dashu-base never overflow (they are proved sound; totality is proved up to u16), and the u128 cube-root step meets its contract (mirrored and correspondence-checked, not proved; everything returned is checked against the floor-root relation per call)"]
 LEVEL_TEXT = ("Machine-checked Lean 4 theorems over an executable model of gcd/gcd_ext dispatch and Bezout recovery, the Lehmer cofactor "
-              "step and the complete multi-word Lehmer loops (gcd and extended gcd, proved to return and to be correct), the Newton nth-root iteration, sqrt_rem_large (de)normalisation, the ilog correction loops and remove; "
-              "Zimmermann's square root and the primitive table/Newton roots enter as contracts. The model is "
+              "step and the complete multi-word Lehmer loops (gcd and extended gcd, proved to return and to be correct), the Newton nth-root iteration, "
+              "Zimmermann's Karatsuba square root sqrt_rem / sqrt_rem_42 mirrored with every carry and proved for all lengths, sqrt_rem_large (de)normalisation, "
+              "the primitive roots' correction loops and wrappers (sound for u8..u64, total for u8/u16), the ilog correction loops and remove; "
+              "the u32/u64/u128 primitive square roots are proved sound, their totality (no overflow) above u16 and the u128 cube-root step are mirrored and executed but not proved. The model is "
               "tied to /repo on every run by differential execution over structured operands (perfect powers +-1, size-class "
-              "boundaries, quotient overflow, exhaustive u8/u16); log2 bounds are echoed from the implementation and their enclosure of the true "
+              "boundaries, quotient overflow, the Karatsuba q = B arm, exhaustive u8/u16) and by reading the lookup tables from the source; log2 bounds are echoed from the implementation and their enclosure of the true "
               "logarithm is decided with exact integer arithmetic on every call.")
 LEVEL_NOTE = ("Trusted: Lean kernel; axioms propext/Classical.choice/Quot.sound; correspondence harness + generators (sampling); frontier "
               "kernels listed in evidence are specified, not verified; the libm-based f32 log2 estimator (std build) is not the subject of "
@@ -480,5 +556,7 @@ TECHNIQUE = "Lean 4 refinement/termination proofs (fuel + bound theorems) + diff
 THEOREMS = ["Dashu.Props.C12." + t for t in ["gcd_prim_spec", "trailing_zeros_or", "gcd_spec", "gcd_int_spec", "gcd_spec_frontier", "gcd_ext_prim_spec", "gcd_ext_prim_wide_spec", "gcd_ext_bezout", "lehmer_gcd_ext_correct", "gcd_ext_spec", "gcd_ext_bezout_driver", "lehmer_guess_det",
             "lehmer_step_preserves_gcd", "lehmer_step_nonneg", "lehmer_gcd_sound", "lehmer_gcd_correct", "sqrt_rem_spec", "nth_root_spec", "cbrt_rem_spec", "ibig_root_spec", "ilog_spec", "remove_spec",
             "log2_table_sound", "log2_u8_table_sound", "log2_wide_table_sound", "nth_root_zero_asIs_counterexample", "sqrt_rem_asIs_counterexample", "ibig_cbrt_asIs_counterexample",
-            "ilog_zero_asIs_counterexample", "gcd_ext_post_precondition_counterexample"]]
+            "ilog_zero_asIs_counterexample", "gcd_ext_post_precondition_counterexample",
+            "zimmermann_step", "sqrt_rem_42_correct", "sqrt_rem_karatsuba_correct", "sqrt_rem_kernel_eq_spec", "sqrt_rem_mirrored_spec", "nth_root_mirrored_eq",
+            "fix_sqrt_error_sound", "fix_cbrt_error_sound", "prim_sqrt_rem_sound", "prim_cbrt_rem_sound", "prim_root_u8_total", "prim_root_u16_total", "prim_exact_of_total", "sqrt_rem_driver_spec"]]
 READY = True
